@@ -44,6 +44,100 @@ def _memo(kind, j, oid, build):
     return _MEMO[key]
 
 
+# ------------------------------------------------------------------------------------------
+# the rounding of the real interpolation, observed (WAVE 5)
+# ------------------------------------------------------------------------------------------
+# C19: "interpolated baseline points lie on multiples of the step inside the baseline's x-range with y BETWEEN the
+# neighbouring points' y values" — the statement names no rounding rule (truncation, nearest, floor … all lie between
+# the neighbours).  The Lean model has that one expression as its parameter `mdt` and every theorem holds for every
+# `mdt` (or every `mdt` with MulDivTruncLaws = "between the neighbours").  So while a case runs, every value the
+# real `interpolate_points` yields is recorded as a row (k, a, b, r) — sample at x_left + k on a segment with
+# a = y_left - y_right, b = x_right - x_left, r = y_left - y — and
+#   * every row is checked against the statement's clause (r between 0 and a) and against the other rows (the
+#     rounding has to be a FUNCTION of (k, a, b): the shifted-copy and identical-shape clauses need that);
+#   * the rows on which r differs from the IEEE truncation int(k * (a / b)) (the model's default instance) are handed
+#     to the model as `mdt_table`: the model then computes with the implementation's own rounding, and everything
+#     computed FROM the interpolated points (distances, heights, averages, statistics) is still compared EXACTLY.
+# On a tree that truncates, the table is empty and nothing changes.
+
+def ieee_trunc(k: int, a: int, b: int) -> Optional[int]:
+    try:
+        return int(k * (a / b))
+    except Exception:  # noqa
+        return None
+
+
+class MdtRecorder:
+    MAX_NOTES = 3
+
+    def __init__(self):
+        self.rows: Dict[Any, int] = {}
+        self.bad: List[Any] = []
+        self.conflict: List[Any] = []
+
+    def note(self, p1, p2, xy):
+        try:
+            (x1, y1), (x2, y2) = p1, p2
+            x, y = xy
+        except Exception:  # noqa
+            return
+        if not all(type(v) is int for v in (x1, y1, x2, y2, x, y)) or x1 == x2:
+            return          # nothing the model could be told; the outputs themselves are compared anyway
+        if x1 > x2:
+            x1, y1, x2, y2 = x2, y2, x1, y1
+        key = (x - x1, y1 - y2, x2 - x1)
+        r = y1 - y
+        if key in self.rows:
+            if self.rows[key] != r and len(self.conflict) < self.MAX_NOTES:
+                self.conflict.append([list(key), self.rows[key], r])
+            return
+        self.rows[key] = r
+        k, a, b = key
+        if 0 <= k <= b and not (min(0, a) <= r <= max(0, a)) and len(self.bad) < self.MAX_NOTES:
+            self.bad.append([[x1, y1], [x2, y2], [x, y]])
+
+    def wrap(self, orig):
+        import inspect
+        rec = self
+
+        def points(a, k):
+            try:
+                vals = list(inspect.signature(orig).bind(*a, **k).arguments.values())
+                return vals[0], vals[1]
+            except Exception:  # noqa
+                return None, None
+        if inspect.isgeneratorfunction(orig):
+            def interpolate_points(*a, **k):
+                p1, p2 = points(a, k)
+                for xy in orig(*a, **k):
+                    rec.note(p1, p2, xy)
+                    yield xy
+        else:
+            def interpolate_points(*a, **k):
+                out = orig(*a, **k)
+                if isinstance(out, (list, tuple)):
+                    p1, p2 = points(a, k)
+                    for xy in out:
+                        rec.note(p1, p2, xy)
+                return out
+        interpolate_points.__wrapped__ = orig
+        return interpolate_points
+
+    def summary(self) -> Dict[str, Any]:
+        over = [[k, a, b, r] for (k, a, b), r in self.rows.items() if ieee_trunc(k, a, b) != r]
+        if not over and not self.bad and not self.conflict:
+            return NO_MDT_NOTES
+        return {'over': over, 'bad': self.bad, 'conflict': self.conflict}
+
+
+NO_MDT_NOTES: Dict[str, Any] = {'over': [], 'bad': [], 'conflict': []}
+
+
+def _case_key(case) -> str:
+    import hashlib
+    return hashlib.sha256(json.dumps([case.kind, case.input], sort_keys=True).encode()).hexdigest()
+
+
 def _snap_obj(o) -> Any:
     """deep snapshot of a line / region (id, points, baseline, text, children): the measured functions must not
     change the objects they measure"""
@@ -311,10 +405,19 @@ class C19(Check):
         'model keeps the code\'s half-open choice, C19_width_category), (b) the order inside the above / below parts of '
         'sort_coords_above_below_baseline, (c) the exception class for an avg_type / unit the statement does not speak '
         'of (rejected-vs-accepted); cases with a step <= 0 or with lines that have no baseline lie outside the '
-        'quantifier: differences there are only recorded and the oracle does not judge them.')
+        'quantifier: differences there are only recorded and the oracle does not judge them; (d) (wave 5) the ROUNDING of an '
+        'interpolated y: the statement asks only that it lie between the neighbouring points\' y values, and every '
+        'theorem holds for every mdt (with MulDivTruncLaws where needed), so the values the real interpolate_points '
+        'yields while a case runs are recorded, each is checked against that clause and against being a function of '
+        '(offset, rise, run) — which the shifted-copy clause needs —, and where they differ from the IEEE truncation '
+        'they are handed to the model as mdt_table (Drv/C19.lean mdtTable): the model computes with the '
+        'implementation\'s own rounding and every distance / height / average / statistic computed from the '
+        'interpolated points is still compared exactly. The mdt cases compare the Lean Float instance with CPython '
+        'doubles and check the laws on it and on the real value.')
     assumptions = [
         'IEEE-double instance of mulDivTrunc satisfies MulDivTruncLaws and equals CPython on the expression '
-        '(sampled on every run, never proved)',
+        '(sampled on every run, never proved); the rounding of the real interpolate_points is a function of (offset, '
+        'rise, run) obeying MulDivTruncLaws (checked on every value it yields during a run, never proved)',
         'numpy mean / median are the exact rational mean / median for pixel-sized integer arrays',
         'average_baseline_height: double arithmetic equals exact rational truncation for |coordinates| < 2^20',
         'Python sorted() is stable and returns a permutation; dict keeps insertion order and a re-assigned key '
@@ -324,6 +427,7 @@ class C19(Check):
     ]
     nontrivial_rule = ('distinct inputs by canonical JSON; non-trivial = at least one baseline with two or more '
                        'points of different x, or two or more lines / widths')
+    _mdt: Dict[str, Dict[str, Any]] = {}      # case key -> MdtRecorder.summary() of the last impl() on that case
 
     # ---------------------------------------------------------------- constants regenerated from the source
     def translate(self):
@@ -859,7 +963,12 @@ class C19(Check):
         repeat (1) and the objects must be unchanged; only if not, the outcome carries a `_hist` entry."""
         global _MEMO
         _MEMO = {}
+        _, ls = _real()
+        rec = MdtRecorder()
+        orig = getattr(ls, 'interpolate_points', None)
         try:
+            if callable(orig):
+                ls.interpolate_points = rec.wrap(orig)
             i = case.input
             if isinstance(i, dict) and isinstance(i.get('step'), int) and case.kind != 'mdt':
                 other = 10 if i['step'] != 10 else 50
@@ -881,6 +990,16 @@ class C19(Check):
             return first
         finally:
             _MEMO = None
+            if callable(orig):
+                ls.interpolate_points = orig
+            self._mdt[_case_key(case)] = rec.summary()
+
+    def _mdt_notes(self, case: Case) -> Dict[str, Any]:
+        """what the recorder saw while impl(case) ran (impl is run now if it was not run on this case before)"""
+        key = _case_key(case)
+        if key not in self._mdt:
+            self.impl(case)
+        return self._mdt.get(key, NO_MDT_NOTES)
 
     def _impl_once(self, case: Case) -> Any:
         pdm, ls = _real()
@@ -939,7 +1058,11 @@ class C19(Check):
         i = case.input
         k = case.kind
 
+        over = self._mdt_notes(case)['over'] if k != 'mdt' else []
+
         def rq(op, args):
+            if over:
+                args = dict(args, mdt_table=over)
             return [{'p': 'C19', 'op': op, 'args': args}]
         if k == 'mdt':
             return rq('mdt', i)
@@ -984,13 +1107,30 @@ class C19(Check):
             return None
         m = model_out[0]
         k = case.kind
+        notes = self._mdt.get(_case_key(case), NO_MDT_NOTES)
+        if notes['bad']:
+            p, q, xy = notes['bad'][0]
+            return (f'interpolate_points: sample {xy} between {p} and {q} is not between the neighbouring points\' y '
+                    f'values (MulDivTruncLaws broken by the implementation)')
+        if notes['conflict']:
+            key, r1, r2 = notes['conflict'][0]
+            return (f'interpolate_points: offset/rise/run {key} gave {r1} and {r2} within one case — the rounding is '
+                    f'no function of the segment shape (the model cannot follow it)')
         if k == 'mdt':
-            if impl_out != m:
-                return f'impl={impl_out} model={m}'
-            # the laws the theorems assume, sampled on the IEEE instance
-            r, a = m.get('ok'), case.input['a']
-            if r is None or abs(r) > abs(a) or (a >= 0 and r < 0) or (a <= 0 and r > 0):
+            # (1) the model's default instance (Lean Float) against CPython's own doubles on the expression — the
+            # sampled assumption behind every request that carries no table; (2) the laws the theorems assume, on
+            # the IEEE instance and on the value the REAL interpolate_points produced.  The real value itself is
+            # not demanded to be the truncation: the statement fixes "between the neighbours" only.
+            kk, a, b = case.input['k'], case.input['a'], case.input['b']
+            r = m.get('ok')
+            if r is None or r != ieee_trunc(kk, a, b):
+                return f'Lean Float instance differs from CPython doubles: mdt({case.input}) = {m}, int(k * (a / b)) = {ieee_trunc(kk, a, b)}'
+            if abs(r) > abs(a) or (a >= 0 and r < 0) or (a <= 0 and r > 0):
                 return f'IEEE instance breaks MulDivTruncLaws: mdt({case.input}) = {r}'
+            ri = impl_out.get('ok') if isinstance(impl_out, dict) else None
+            if type(ri) is not int or not (min(0, a) <= ri <= max(0, a)):
+                return (f'impl={impl_out} model={m}: the real interpolate_points is not between the neighbours '
+                        f'(0 and {a}) for {case.input}')
             return None
         if k in ('interp_points', 'interp_baseline', 'height_stats', 'line_distances'):
             return None if impl_out == m else f'impl={impl_out} model={m}'
@@ -1109,7 +1249,11 @@ class C19(Check):
                         f'interpolated point ({x},{y}) not between neighbouring baseline points of {points}')
                     return
 
-        if k == 'interp_points':
+        if k == 'mdt':
+            # the first sample of the segment (0, 0) – (b, -a) with step k: the same clause as for interp_points
+            if 'ok' in out and type(out['ok']) is int:
+                grid([[0, 0], [i['b'], -i['a']]], i['k'], [[i['k'], -out['ok']]], 'segment')
+        elif k == 'interp_points':
             if 'ok' in out and i['step'] > 0:
                 grid([i['p1'], i['p2']], i['step'], out['ok'], 'segment')
                 # every multiple of the step strictly right of the left end, up to the right end, is sampled
